@@ -1499,3 +1499,397 @@ Example merge_with_schema_example :
     [VStruct [(2%N, VList [VStruct [(0%N, VLeaf (VI 1)); (1%N, VLeaf (VI 10))]; VStruct [(0%N, VLeaf (VI 2)); (1%N, VLeaf (VI 20))]])];
      VStruct [(2%N, VList [VStruct [(0%N, VLeaf (VI 3)); (1%N, VLeaf (VI 30))]])]]%Z.
 Proof. eexists. split; [vm_compute; reflexivity | vm_compute; reflexivity]. Qed.
+
+(* ================================================================== part 9: the whole merge *)
+
+(* ------------------------------------------------------------------ the whole merge, row by row *)
+Definition dflt : dfield := (0%N, true, DLeaf 0).
+
+(* the left part of a merged row (named version of the inner loop of merge_val) *)
+Fixpoint mfields (rfs : list dfield) (lv rv : lval) (k : nat) (fs : list dfield) : list (N * lval) :=
+  match fs with
+  | [] => []
+  | f :: fs' =>
+      (fst (fst f),
+       match dindex (fst (fst f)) rfs with
+       | Some j =>
+           match snd f with
+           | DStruct _ =>
+               if is_dstruct (dftype (nth j rfs dflt))
+               then merge_val (snd f) (dftype (nth j rfs dflt)) (vchild lv k) (vchild rv j)
+               else vchild lv k
+           | _ => vchild lv k
+           end
+       | None => vchild lv k
+       end) :: mfields rfs lv rv (S k) fs'
+  end.
+Definition rfields (lfs rfs : list dfield) (rv : lval) : list (N * lval) :=
+  map (fun jf : nat * dfield => (dname (snd jf), vchild rv (fst jf)))
+      (filter (fun jf : nat * dfield => negb (existsb (fun f => N.eqb (dname f) (dname (snd jf))) lfs))
+              (combine (seq 0 (length rfs)) rfs)).
+
+Lemma merge_val_struct lfs tr lv rv :
+  merge_val (DStruct lfs) tr lv rv =
+  match lv, rv with
+  | VNull, VNull => VNull
+  | _, _ => VStruct (mfields (dfields tr) lv rv 0 lfs ++ rfields lfs (dfields tr) rv)
+  end.
+Proof.
+  assert (G : forall k fs,
+    (fix go (k : nat) (fs : list dfield) : list (N * lval) :=
+       match fs with
+       | [] => []
+       | f :: fs' =>
+           (fst (fst f),
+            match dindex (fst (fst f)) (dfields tr) with
+            | Some j =>
+                match snd f with
+                | DStruct _ =>
+                    if is_dstruct (dftype (nth j (dfields tr) (0%N, true, DLeaf 0)))
+                    then merge_val (snd f) (dftype (nth j (dfields tr) (0%N, true, DLeaf 0))) (vchild lv k) (vchild rv j)
+                    else vchild lv k
+                | _ => vchild lv k
+                end
+            | None => vchild lv k
+            end) :: go (S k) fs'
+       end) k fs = mfields (dfields tr) lv rv k fs).
+  { intros k fs. revert k. induction fs as [|f fs IH]; intro k; [reflexivity|].
+    cbn [mfields]. rewrite <- IH. reflexivity. }
+  destruct lv, rv; cbn [merge_val]; try reflexivity; unfold rfields; rewrite G; reflexivity.
+Qed.
+
+Definition ftypes (fs : list field) : list dfield := map (fun f : field => (fname f, fnullable f, ptype (fcol f))) fs.
+Lemma ptype_struct n fs nl : ptype (PStruct n fs nl) = DStruct (ftypes fs).
+Proof. reflexivity. Qed.
+
+Definition dummy_field : field := (0%N, true, PLeaf 0 0 [] None).
+
+Lemma dindex_find nm (rfs : list field) :
+  match find_field nm rfs with
+  | Some rf => exists j, dindex nm (ftypes rfs) = Some j /\ j < length rfs /\ nth j rfs dummy_field = rf
+  | None => dindex nm (ftypes rfs) = None
+  end.
+Proof.
+  unfold find_field. induction rfs as [|f rfs IH]; [reflexivity|].
+  cbn [find ftypes map dindex].
+  change (dname (fname f, fnullable f, ptype (fcol f))) with (fname f).
+  destruct (N.eqb (fname f) nm) eqn:E.
+  - exists 0. repeat split; cbn [length]; lia.
+  - fold (ftypes rfs). destruct (find (fun f0 : field => N.eqb (fname f0) nm) rfs) as [rf|].
+    + destruct IH as (j & Hj & Hl & Hn). exists (S j). rewrite Hj. repeat split; cbn [length nth option_map]; try lia. exact Hn.
+    + rewrite IH. reflexivity.
+Qed.
+
+Lemma nth_ftypes j fs : j < length fs ->
+  nth j (ftypes fs) dflt = (fname (nth j fs dummy_field), fnullable (nth j fs dummy_field), ptype (fcol (nth j fs dummy_field))).
+Proof.
+  intro H. unfold ftypes.
+  set (g := fun f : field => (fname f, fnullable f, ptype (fcol f))).
+  rewrite (nth_indep _ dflt (g dummy_field)) by (rewrite map_length; exact H).
+  rewrite map_nth. reflexivity.
+Qed.
+
+Lemma is_dstruct_ptype p : is_dstruct (ptype p) = is_pstruct p.
+Proof. destruct p; reflexivity. Qed.
+
+(* row i of a struct and its children *)
+Definition srow (fs : list field) (nl : option bitview) (i : nat) : lval :=
+  if valid nl i then VStruct (map (fun f : field => (fname f, nth i (logical (fcol f)) VNull)) fs) else VNull.
+
+Lemma nth_logical_struct n fs nl i : i < n -> nth i (logical (PStruct n fs nl)) VNull = srow fs nl i.
+Proof. intro H. rewrite nth_logical by exact H. reflexivity. Qed.
+
+Lemma vchild_srow fs nl i k : k < length fs ->
+  vchild (srow fs nl i) k = if valid nl i then nth i (logical (fcol (nth k fs dummy_field))) VNull else VNull.
+Proof.
+  intro H. unfold srow. destruct (valid nl i); [|reflexivity]. cbn [vchild]. rewrite map_map. cbn [snd].
+  set (g := fun f : field => nth i (logical (fcol f)) VNull).
+  rewrite (nth_indep _ VNull (g dummy_field)) by (rewrite map_length; exact H).
+  rewrite map_nth. reflexivity.
+Qed.
+
+Lemma leak_false child parent n i :
+  masked_values_leak child parent n = false -> i < n -> plen child = n -> valid parent i = false ->
+  nth i (logical child) VNull = VNull.
+Proof.
+  intros H Hi Hn Hv. unfold masked_values_leak in H.
+  rewrite nth_logical by lia.
+  destruct (valid (pnulls child) i) eqn:E; [|reflexivity]. exfalso.
+  assert (X : existsb (fun i0 : nat => negb (valid parent i0) && valid (pnulls child) i0) (seq 0 n) = true).
+  { apply existsb_exists. exists i. split; [apply in_seq; lia|]. rewrite Hv, E. reflexivity. }
+  congruence.
+Qed.
+
+Lemma adjust_entry (c0 : parr) (parent : option bitview) n (nm : N) (nb : bool) (cols1 : list field) :
+  validity_offset_dropped c0 parent n = false -> plen c0 = n ->
+  obind (adjust_child_validity c0 parent n) (fun a => Ok [(nm, nb, a)]) = Ok cols1 ->
+  exists c : parr, cols1 = [(nm, nb, c)] /\ plen c = n /\
+    forall i, i < n -> nth i (logical c) VNull = if valid parent i then nth i (logical c0) VNull else VNull.
+Proof.
+  intros HO Hn H. apply obind_ok in H as (a & Ha & Hc). inversion Hc; subst cols1.
+  destruct (adjust_child_validity_ok c0 parent n a Hn HO Ha) as (P1 & _ & P3).
+  exists a. repeat split; auto.
+Qed.
+
+Section MergeStep.
+  Variables (n : nat) (lfs rfs : list field) (lnl rnl : option bitview).
+  Hypothesis Wl : Forall (fun f : field => plen (snd f) = n /\ wfb (snd f) = true) lfs.
+  Hypothesis Wr : Forall (fun f : field => plen (snd f) = n /\ wfb (snd f) = true) rfs.
+  Hypothesis IH : Forall (fun f : field => forall r m,
+      wfb (snd f) = true -> wfb r = true -> merge_clean (snd f) r = true -> merge (snd f) r = Ok m ->
+      plen m = plen (snd f) /\
+      logical m = map2 (merge_val (ptype (snd f)) (ptype r)) (logical (snd f)) (logical r)) lfs.
+
+  Definition Fl (lf : field) : outcome (list field) :=
+    match find_field (fst (fst lf)) rfs with
+    | Some rf =>
+        match snd lf with
+        | PStruct _ _ _ =>
+            if is_pstruct (fcol rf)
+            then obind (merge (snd lf) (fcol rf)) (fun m => Ok [(fst (fst lf), snd (fst lf), m)])
+            else obind (adjust_child_validity (snd lf) lnl n) (fun a => Ok [(fst (fst lf), snd (fst lf), a)])
+        | PList false _ lv _ =>
+            if is_pstruct lv && is_list_of_struct (fcol rf)
+            then
+              obind (merge_list_struct (snd lf) (fcol rf) (merge lv (pvalues (fcol rf)))) (fun m =>
+              Ok ((if dtype_eqb (ptype lv) (ptype (pvalues (fcol rf))) then [lf] else [])
+                  ++ [(fst (fst lf), snd (fst lf), m)]))
+            else obind (adjust_child_validity (snd lf) lnl n) (fun a => Ok [(fst (fst lf), snd (fst lf), a)])
+        | _ => obind (adjust_child_validity (snd lf) lnl n) (fun a => Ok [(fst (fst lf), snd (fst lf), a)])
+        end
+    | None => obind (adjust_child_validity (snd lf) lnl n) (fun a => Ok [(fst (fst lf), snd (fst lf), a)])
+    end.
+
+  Definition cleanl (lf : field) : bool :=
+    match find_field (fst (fst lf)) rfs with
+    | Some rf =>
+        match snd lf with
+        | PStruct _ _ _ =>
+            if is_pstruct (fcol rf)
+            then negb (masked_values_leak (snd lf) lnl n) && negb (masked_values_leak (fcol rf) rnl n)
+                 && merge_clean (snd lf) (fcol rf)
+            else negb (validity_offset_dropped (snd lf) lnl n)
+        | PList false _ lv _ =>
+            negb (is_pstruct lv && is_list_of_struct (fcol rf))
+            && negb (validity_offset_dropped (snd lf) lnl n)
+        | _ => negb (validity_offset_dropped (snd lf) lnl n)
+        end
+    | None => negb (validity_offset_dropped (snd lf) lnl n)
+    end.
+
+  (* one left column *)
+  Lemma left_entry : forall pre lf post cols1,
+    lfs = pre ++ lf :: post -> cleanl lf = true -> Fl lf = Ok cols1 ->
+    exists c : parr, cols1 = [(fname lf, fnullable lf, c)] /\ plen c = n /\
+      forall i, i < n ->
+        (fname lf, nth i (logical c) VNull) =
+        hd (0%N, VNull) (mfields (ftypes rfs) (srow lfs lnl i) (srow rfs rnl i) (length pre) (ftypes [lf])).
+  Proof.
+    intros pre lf post cols1 Hlfs Hc HF.
+    assert (Hin : In lf lfs) by (rewrite Hlfs; apply in_or_app; right; left; reflexivity).
+    rewrite Forall_forall in Wl, Wr, IH. destruct (Wl lf Hin) as [Wl1 Wl2].
+    assert (Hk : length pre < length lfs) by (rewrite Hlfs, app_length; cbn [length]; lia).
+    assert (Hnth : nth (length pre) lfs dummy_field = lf) by (rewrite Hlfs, app_nth2, Nat.sub_diag by lia; reflexivity).
+    assert (Hv : forall i, vchild (srow lfs lnl i) (length pre) = if valid lnl i then nth i (logical (snd lf)) VNull else VNull).
+    { intro i. rewrite vchild_srow by exact Hk. rewrite Hnth. reflexivity. }
+    (* the adjust branch, shared by most cases *)
+    assert (Adj : forall (X : dtype -> lval -> lval),
+              validity_offset_dropped (snd lf) lnl n = false ->
+              obind (adjust_child_validity (snd lf) lnl n) (fun a => Ok [(fst (fst lf), snd (fst lf), a)]) = Ok cols1 ->
+              exists c : parr, cols1 = [(fname lf, fnullable lf, c)] /\ plen c = n /\
+                forall i, i < n -> nth i (logical c) VNull = vchild (srow lfs lnl i) (length pre)).
+    { intros _ HO H. destruct (adjust_entry _ _ _ _ _ _ HO Wl1 H) as (c & E1 & E2 & E3).
+      exists c. repeat split; auto. intros i Hi. rewrite Hv. apply E3. exact Hi. }
+    unfold Fl in HF. unfold cleanl in Hc. cbn [ftypes map mfields hd].
+    change (fst (fst (fname lf, fnullable lf, ptype (fcol lf)))) with (fname lf).
+    change (snd (fname lf, fnullable lf, ptype (fcol lf))) with (ptype (snd lf)).
+    change (fst (fst lf)) with (fname lf) in *. change (snd (fst lf)) with (fnullable lf) in *.
+    pose proof (dindex_find (fname lf) rfs) as DF.
+    destruct (find_field (fname lf) rfs) as [rf|] eqn:Ef.
+    2:{ rewrite DF. apply negb_true_iff in Hc.
+        destruct (Adj (fun _ v => v) Hc HF) as (c & E1 & E2 & E3). exists c. repeat split; auto.
+        intros i Hi. rewrite E3 by exact Hi. reflexivity. }
+    destruct DF as (j & Hj & Hjl & Hjn). rewrite Hj.
+    rewrite nth_ftypes by exact Hjl. rewrite Hjn. unfold dftype. cbn [snd]. rewrite is_dstruct_ptype.
+    assert (Hinr : In rf rfs) by (apply (find_some _ _ Ef)).
+    destruct (Wr rf Hinr) as [Wr1 Wr2].
+    destruct (snd lf) as [k a vals nl | len fs nl | lg offs v nl | sz len v nl] eqn:El.
+    - (* leaf *) apply negb_true_iff in Hc.
+      destruct (Adj (fun _ v => v) Hc HF) as (c & E1 & E2 & E3). exists c. repeat split; auto.
+      intros i Hi. rewrite E3 by exact Hi. reflexivity.
+    - (* struct *)
+      cbn [ptype]. destruct (is_pstruct (fcol rf)) eqn:Ers.
+      + apply andb_true_iff in Hc as [Hc Hc3]. apply andb_true_iff in Hc as [Hc1 Hc2].
+        apply negb_true_iff in Hc1. apply negb_true_iff in Hc2.
+        apply obind_ok in HF as (m & Hm & Hcols). inversion Hcols; subst cols1.
+        rewrite <- El in Hm, Hc3, Hc1, Wl1, Wl2, Hv.
+        destruct (IH lf Hin (fcol rf) m Wl2 Wr2 Hc3 Hm) as [P1 P2].
+        exists m. split; [reflexivity|]. split; [lia|]. intros i Hi. f_equal.
+        rewrite P2. rewrite (nth_map2 _ VNull VNull VNull) by (rewrite logical_length by assumption; unfold fcol in *; lia).
+        rewrite El. cbn [ptype]. rewrite <- El.
+        f_equal.
+        * rewrite Hv. destruct (valid lnl i) eqn:V; [reflexivity|].
+          apply (leak_false _ _ _ _ Hc1 Hi Wl1 V).
+        * assert (Hjk : vchild (srow rfs rnl i) j = if valid rnl i then nth i (logical (fcol rf)) VNull else VNull).
+          { rewrite vchild_srow by exact Hjl. rewrite Hjn. reflexivity. }
+          rewrite Hjk. destruct (valid rnl i) eqn:V; [reflexivity|].
+          apply (leak_false _ _ _ _ Hc2 Hi Wr1 V).
+      + apply negb_true_iff in Hc.
+        destruct (Adj (fun _ v => v) Hc HF) as (c & E1 & E2 & E3). exists c. repeat split; auto.
+        intros i Hi. rewrite E3 by exact Hi. reflexivity.
+    - (* list *)
+      cbn [ptype]. destruct lg.
+      + apply negb_true_iff in Hc.
+        destruct (Adj (fun _ v => v) Hc HF) as (c & E1 & E2 & E3). exists c. repeat split; auto.
+        intros i Hi. rewrite E3 by exact Hi. reflexivity.
+      + apply andb_true_iff in Hc as [Hc1 Hc2]. apply negb_true_iff in Hc1. rewrite Hc1 in HF.
+        apply negb_true_iff in Hc2.
+        destruct (Adj (fun _ v => v) Hc2 HF) as (c & E1 & E2 & E3). exists c. repeat split; auto.
+        intros i Hi. rewrite E3 by exact Hi. reflexivity.
+    - (* fixed size list *)
+      apply negb_true_iff in Hc.
+      destruct (Adj (fun _ v => v) Hc HF) as (c & E1 & E2 & E3). exists c. repeat split; auto.
+      intros i Hi. rewrite E3 by exact Hi. reflexivity.
+  Qed.
+End MergeStep.
+
+Lemma mfields_cons rfs lv rv k f fs :
+  mfields rfs lv rv k (f :: fs) = hd (0%N, VNull) (mfields rfs lv rv k [f]) :: mfields rfs lv rv (S k) fs.
+Proof. reflexivity. Qed.
+
+Section MergeCols.
+  Variables (n : nat) (lfs rfs : list field) (lnl rnl : option bitview).
+  Hypothesis Wl : Forall (fun f : field => plen (snd f) = n /\ wfb (snd f) = true) lfs.
+  Hypothesis Wr : Forall (fun f : field => plen (snd f) = n /\ wfb (snd f) = true) rfs.
+  Hypothesis IH : Forall (fun f : field => forall r m,
+      wfb (snd f) = true -> wfb r = true -> merge_clean (snd f) r = true -> merge (snd f) r = Ok m ->
+      plen m = plen (snd f) /\
+      logical m = map2 (merge_val (ptype (snd f)) (ptype r)) (logical (snd f)) (logical r)) lfs.
+
+  Lemma left_cols : forall suffix pre colss,
+    lfs = pre ++ suffix -> forallb (cleanl n rfs lnl rnl) suffix = true ->
+    omap (Fl n rfs lnl) suffix = Ok colss ->
+    Forall (fun g : field => plen (fcol g) = n) (concat colss) /\
+    (suffix <> [] -> concat colss <> []) /\
+    forall i, i < n ->
+      map (fun g : field => (fname g, nth i (logical (fcol g)) VNull)) (concat colss) =
+      mfields (ftypes rfs) (srow lfs lnl i) (srow rfs rnl i) (length pre) (ftypes suffix).
+  Proof.
+    induction suffix as [|lf suffix IHs]; intros pre colss Hlfs Hc HF.
+    - cbn [omap] in HF. inversion HF; subst colss. cbn [concat]. split; [constructor|]. split; [congruence|]. reflexivity.
+    - cbn [omap] in HF. apply obind_ok in HF as (cols1 & H1 & HF). apply obind_ok in HF as (colss' & H2 & HF).
+      inversion HF; subst colss. clear HF.
+      cbn [forallb] in Hc. apply andb_true_iff in Hc as [Hc1 Hc2].
+      destruct (left_entry n lfs rfs lnl rnl Wl Wr IH pre lf suffix cols1 Hlfs Hc1 H1) as (c & E1 & E2 & E3).
+      assert (Hlfs' : lfs = (pre ++ [lf]) ++ suffix) by (rewrite <- app_assoc; exact Hlfs).
+      destruct (IHs (pre ++ [lf]) colss' Hlfs' Hc2 H2) as (I1 & _ & I3).
+      subst cols1. cbn [concat app]. split; [constructor; [exact E2 | exact I1]|]. split; [congruence|].
+      intros i Hi. cbn [map ftypes]. fold (ftypes suffix).
+      change ((fname lf, fnullable lf, ptype (fcol lf)) :: ftypes suffix) with (ftypes [lf] ++ ftypes suffix).
+      cbn [ftypes map app]. rewrite mfields_cons. f_equal.
+      + cbn [fname fcol fst snd]. apply (E3 i Hi).
+      + rewrite (I3 i Hi). rewrite app_length. cbn [length]. f_equal. lia.
+  Qed.
+
+  (* the right-only columns *)
+  Definition Fr (rf : field) : outcome field :=
+    obind (adjust_child_validity (fcol rf) rnl n) (fun a => Ok (fname rf, fnullable rf, a)).
+
+  Lemma right_cols : forall suffix pre rcols,
+    rfs = pre ++ suffix ->
+    forallb (fun rf : field => negb (validity_offset_dropped (fcol rf) rnl n))
+            (filter (fun rf => negb (has_field (fname rf) lfs)) suffix) = true ->
+    omap Fr (filter (fun rf => negb (has_field (fname rf) lfs)) suffix) = Ok rcols ->
+    Forall (fun g : field => plen (fcol g) = n) rcols /\
+    forall i, i < n ->
+      map (fun g : field => (fname g, nth i (logical (fcol g)) VNull)) rcols =
+      map (fun jf : nat * dfield => (dname (snd jf), vchild (srow rfs rnl i) (fst jf)))
+          (filter (fun jf : nat * dfield => negb (existsb (fun f => N.eqb (dname f) (dname (snd jf))) (ftypes lfs)))
+                  (combine (seq (length pre) (length suffix)) (ftypes suffix))).
+  Proof.
+    assert (Hex : forall nm, existsb (fun f : dfield => N.eqb (dname f) nm) (ftypes lfs) = has_field nm lfs).
+    { intro nm. unfold has_field, ftypes. induction lfs as [|f l IHl]; [reflexivity|].
+      cbn [map existsb]. rewrite IHl by (inversion Wl; inversion IH; assumption). reflexivity. }
+    induction suffix as [|rf suffix IHs]; intros pre rcols Hrfs Hc HF.
+    - cbn [filter omap] in HF. inversion HF; subst rcols. split; [constructor | reflexivity].
+    - cbn [filter length seq ftypes map combine] in *. fold (ftypes suffix).
+      rewrite Hex.
+      change (dname (snd (length pre, (fname rf, fnullable rf, ptype (fcol rf))))) with (fname rf).
+      assert (Hrfs' : rfs = (pre ++ [rf]) ++ suffix) by (rewrite <- app_assoc; exact Hrfs).
+      destruct (negb (has_field (fname rf) lfs)) eqn:En.
+      + cbn [omap forallb] in *. apply obind_ok in HF as (g & H1 & HF). apply obind_ok in HF as (rcols' & H2 & HF).
+        inversion HF; subst rcols. clear HF. apply andb_true_iff in Hc as [Hc1 Hc2]. apply negb_true_iff in Hc1.
+        destruct (IHs (pre ++ [rf]) rcols' Hrfs' Hc2 H2) as (I1 & I2).
+        assert (Hin : In rf rfs) by (rewrite Hrfs; apply in_or_app; right; left; reflexivity).
+        rewrite Forall_forall in Wr. destruct (Wr rf Hin) as [Wr1 Wr2].
+        unfold Fr in H1. apply obind_ok in H1 as (a & Ha & Hg). inversion Hg; subst g.
+        destruct (adjust_child_validity_ok (fcol rf) rnl n a Wr1 Hc1 Ha) as (P1 & _ & P3).
+        split; [constructor; [exact P1 | exact I1]|].
+        intros i Hi. cbn [map fname fcol fst snd dname]. f_equal.
+        * f_equal. rewrite (P3 i Hi).
+          assert (Hk : length pre < length rfs) by (rewrite Hrfs, app_length; cbn [length]; lia).
+          rewrite vchild_srow by exact Hk.
+          rewrite Hrfs, app_nth2, Nat.sub_diag by lia. reflexivity.
+        * rewrite (I2 i Hi). rewrite app_length. cbn [length].
+          replace (length pre + 1) with (S (length pre)) by lia. reflexivity.
+      + destruct (IHs (pre ++ [rf]) rcols Hrfs' Hc HF) as (I1 & I2). split; [exact I1|].
+        intros i Hi. rewrite (I2 i Hi). rewrite app_length. cbn [length].
+        replace (length pre + 1) with (S (length pre)) by lia. reflexivity.
+  Qed.
+End MergeCols.
+
+Lemma map2_map_same {A B C D} (f : B -> C -> D) (g : A -> B) (h : A -> C) (l : list A) :
+  map2 f (map g l) (map h l) = map (fun x => f (g x) (h x)) l.
+Proof. induction l as [|x l IH]; [reflexivity|]. cbn [map map2]. rewrite IH. reflexivity. Qed.
+
+Theorem merge_ok : forall l r m,
+  wfb l = true -> wfb r = true -> merge_clean l r = true -> merge l r = Ok m ->
+  plen m = plen l /\
+  logical m = map2 (merge_val (ptype l) (ptype r)) (logical l) (logical r).
+Proof.
+  induction l as [k a vals nl | n lfs lnl IH | lg offs v nl IH | sz len v nl IH] using parr_ind';
+    intros r m Wl Wr Hc Hm; try (cbn [merge_clean] in Hc; discriminate).
+  destruct r as [| rlen rfs rnl | |]; try (cbn [merge_clean] in Hc; discriminate).
+  cbn [merge_clean] in Hc.
+  apply andb_true_iff in Hc as [Hc Hcr]. apply andb_true_iff in Hc as [Hc Hcl].
+  apply andb_true_iff in Hc as [Hc HB]. apply andb_true_iff in Hc as [Hlen HA].
+  apply Nat.eqb_eq in Hlen. subst rlen. apply negb_true_iff in HA. apply negb_true_iff in HB.
+  change (forallb (cleanl n rfs lnl rnl) lfs = true) in Hcl.
+  cbn [merge] in Hm.
+  apply obind_ok in Hm as (mv & Hmv & Hm).
+  apply obind_ok in Hm as (lcols & Hl & Hm).
+  apply obind_ok in Hm as (rcols & Hr & Hm).
+  apply unwrap_ok in Hm.
+  change (omap (Fl n rfs lnl) lfs = Ok lcols) in Hl.
+  change (omap (Fr n rnl) (filter (fun rf : field => negb (has_field (fname rf) lfs)) rfs) = Ok rcols) in Hr.
+  apply wfb_struct in Wl. apply wfb_struct in Wr.
+  destruct (left_cols n lfs rfs lnl rnl Wl Wr IH lfs [] lcols eq_refl Hcl Hl) as (L1 & L2 & L3).
+  destruct (right_cols n lfs rfs rnl Wl Wr IH rfs [] rcols eq_refl Hcr Hr) as (R1 & R3).
+  destruct (merge_struct_validity_ok lnl rnl n HA HB) as (mv' & Hmv' & Hval).
+  rewrite Hmv in Hmv'. inversion Hmv'; subst mv'. clear Hmv'.
+  apply struct_try_new_ok in Hm as (f0 & rest & Hfs & Hq & _).
+  assert (Hall : Forall (fun g : field => plen (fcol g) = n) (concat lcols ++ rcols)).
+  { apply Forall_app. split; assumption. }
+  assert (Hn0 : plen (fcol f0) = n).
+  { rewrite Hfs in Hall. inversion Hall; assumption. }
+  rewrite Hn0 in Hq. subst m. cbn [plen]. split; [reflexivity|].
+  rewrite (logical_rows (PStruct n lfs lnl)), (logical_rows (PStruct n rfs rnl)). cbn [plen pnulls].
+  rewrite map2_map_same. rewrite logical_rows. cbn [plen pnulls].
+  apply map_ext_in. intros i Hi. apply in_seq in Hi. cbn [Nat.add] in Hi.
+  rewrite valid_drop_empty by lia. rewrite (Hval i ltac:(lia)).
+  change (if valid lnl i then row (PStruct n lfs lnl) i else VNull) with (srow lfs lnl i).
+  change (if valid rnl i then row (PStruct n rfs rnl) i else VNull) with (srow rfs rnl i).
+  rewrite !ptype_struct. rewrite merge_val_struct. cbn [dfields].
+  assert (Hf : map (fun g : field => (fname g, nth i (logical (fcol g)) VNull)) (concat lcols ++ rcols) =
+               mfields (ftypes rfs) (srow lfs lnl i) (srow rfs rnl i) 0 (ftypes lfs)
+               ++ rfields (ftypes lfs) (ftypes rfs) (srow rfs rnl i)).
+  { rewrite map_app. f_equal.
+    - exact (L3 i ltac:(lia)).
+    - etransitivity; [exact (R3 i ltac:(lia))|]. unfold rfields. cbn [length].
+      replace (length (ftypes rfs)) with (length rfs) by (unfold ftypes; rewrite map_length; reflexivity).
+      reflexivity. }
+  cbn [row]. rewrite Hf.
+  remember (srow lfs lnl i) as LV eqn:ELV. remember (srow rfs rnl i) as RV eqn:ERV.
+  unfold srow in ELV, ERV.
+  destruct (valid lnl i), (valid rnl i); subst LV RV; reflexivity.
+Qed.
